@@ -317,6 +317,11 @@ def directed(prop, cfg, n=5000, cap=80):
 
 
 def run(prop, cfg, seed, n=150, named=None):
+    rep = run_(prop, cfg, seed, n, named)
+    return bharness.attach(rep, rep.pop('_named'), 'C', render=lambda it: it.rust1())
+
+
+def run_(prop, cfg, seed, n=150, named=None):
     zero = cfg in ('zeroize', 'zod', 'safe-zod')
     named = named if named is not None else items_for(prop, seed, n, zero)
     pred = predict(cfg, named)
@@ -374,7 +379,7 @@ def run(prop, cfg, seed, n=150, named=None):
     if loose:
         raise RuntimeError('diagnostics harness: errors outside any item module: %r %s' % (loose[:3], p.stderr[-600:]))
     rep = dict(config=cfg, items=len(named), predicted=dict(ok=0, err=0, panic=0, bad=0), stage1_errors=0, failures=[],
-               streams={})
+               streams={}, _named=named)
     for i, ((stream, it), (kind, msg, stage)) in enumerate(zip(named, pred)):
         rep['predicted'][kind] += 1
         rep['streams'][stream] = rep['streams'].get(stream, 0) + 1
